@@ -1,0 +1,13 @@
+//go:build verif
+
+// SPDX-License-Identifier: Apache-2.0
+
+package gin
+
+// VerifC20GetRender looks a render up in the render register exactly as the endpoint
+// handlers do (getWithFallback), for the verification harness of property C20.
+// Add-only; compiled with -tags verif only.
+func VerifC20GetRender(name string) (Render, bool) {
+	r := getWithFallback(name, nil)
+	return r, r != nil
+}
